@@ -1007,13 +1007,13 @@ def build_items(tier):
     # ---- stage 3
     if quick:
         grid = [(a, b, c) for a in S3_NPTS for b, c in zip(S3_MELR, range(len(S3_THR)))]
-        skel = {2: S3_SKELETONS[2][1:], 3: S3_SKELETONS[3][1:]}
+        skel = {2: S3_SKELETONS[2][1:], 3: S3_SKELETONS[3][1:2]}
         cfg3 = [c for c in itertools.product(node_choices((0, 1, 4), 1), repeat=3)]
     else:
         grid = [(a, b, c) for a in S3_NPTS for b in S3_MELR for c in range(len(S3_THR))]
         skel = S3_SKELETONS
         cfg3 = [c for c in itertools.product(node_choices((0, 1, 4), 2), repeat=3)]
-    cfg2 = [c for c in itertools.product(node_choices(range(5), 2), repeat=2)]
+    cfg2 = [c for c in itertools.product(node_choices((0, 1, 3, 4) if quick else range(5), 2), repeat=2)]
     for n, cfgs in ((2, cfg2), (3, cfg3)):
         for edges in skel[n]:
             for field in FIELDS:
@@ -1024,7 +1024,7 @@ def build_items(tier):
         "paf": f"{PAF_H}x{PAF_W}, stride {STRIDE}",
         "fields": list(FIELDS),
         "skeletons": skel,
-        "frames_n2": "0..2 peaks per node of 5 positions (256 frames)",
+        "frames_n2": "0..2 peaks per node of positions {0,1,3,4} (121 frames)" if quick else "0..2 peaks per node of 5 positions (256 frames)",
         "frames_n3": "0..1 peaks per node of positions {0,1,4} (64 frames)" if quick else "0..2 peaks per node of positions {0,1,4} (343 frames)",
         "(n_points, max_edge_length_ratio, (min_line_scores, min_instance_peaks))": [[a, b, [S3_THR[c][0], repr(S3_THR[c][1])]] for a, b, c in grid],
         "batch_layouts": list(S3_LAYOUTS),
